@@ -267,6 +267,12 @@ fn run_case_file(cases_path: &Path, scratch: &Path, tag: &str, gen_info: &Value,
             None => json!({"case_id": id, "generator": gen_info}),
         }
     };
+    // evidence: a few of the hostile inputs of this file, written out
+    for c in cases.iter().filter(|c| c.kind != "valid" && c.bytes.len() <= 160).take(2) {
+        if st.samples.len() < 6 {
+            st.samples.push(json!({"type": c.ty, "mutation": c.kind, "input_hex": hex_witness(&c.bytes), "input_len": c.bytes.len()}));
+        }
+    }
     let mut skip = 0usize;
     let mut round = 0;
     loop {
